@@ -214,6 +214,35 @@ def explore(tier, seed):
                         inv.fail("C19", "file-touched-despite-configuration-error", f"{key}={val} via {source}", case)
                     elif out:
                         inv.fail("C19", "output-despite-configuration-error", f"{key}={val} via {source}: stdout {out[:60]!r}", case)
+        # a configuration file that cannot be read as text (not UTF-8) is an error in both file sources, never "no file"
+        for source in ("file", "config-file"):
+            for raw in (b"# caf\xe9\nwrap_column = 30\n", b"wrap_column = 30\n# \xff\xfe\n", b"\xff\xfew\x00r\x00a\x00p\x00"):
+                for mode in ("files", "stdin"):
+                    k += 1
+                    base = os.path.join(root, f"u{k}")
+                    cwd = os.path.join(base, "sub", "deeper")
+                    os.makedirs(cwd)
+                    args = []
+                    if source == "file":
+                        open(os.path.join(base, "pasfmt.toml"), "wb").write(raw)
+                    else:
+                        pth = os.path.join(base, "x.toml")
+                        open(pth, "wb").write(raw)
+                        args += ["--config-file", pth]
+                    target = os.path.join(cwd, "t.pas")
+                    open(target, "w").write("a  ;\n")
+                    os.utime(target, (OLD, OLD))
+                    if mode == "files":
+                        rc, out, err = cli.run(args + [target], cwd=cwd)
+                    else:
+                        rc, out, err = cli.run(args, stdin=b"a  ;\n", cwd=cwd)
+                    inv.case(nontrivial=True)
+                    inv.transitions += 1
+                    case = {"oracle": "c19", "unreadable_config_hex": raw.hex(), "source": source, "mode": mode, "no_confirm": True}
+                    if rc == 0:
+                        inv.fail("C19", "invalid-setting-accepted", f"a configuration file that is not valid UTF-8 ({source}) is silently ignored: exit 0, stdout {out[:60]!r}", case)
+                    elif open(target).read() != "a  ;\n" or int(os.stat(target).st_mtime) != OLD:
+                        inv.fail("C19", "file-touched-despite-configuration-error", f"unreadable configuration via {source}", case)
         # --config-file must exist and be a regular file
         for bad in ("missing.toml", "adir"):
             base = os.path.join(root, f"m-{bad}")
